@@ -104,35 +104,44 @@ Definition spec_iss (c : config) : string := if String.eqb (c_name c) "" then "h
 Definition tmpl_of (c : config) : list (string * cval) := match c_claims c with Some t => t | None => [] end.
 
 (** system claims: sub = subject id, iss = signer name, iat = nbf, exp the ttl later
-    (in whole seconds: between floor(ttl) and ceil(ttl) seconds after iat), jti a fresh id;
-    custom claims exactly under the non-reserved names of the template *)
-Definition claims_ok (c : config) (sub : string) (m : cmap) : bool :=
-  claim_is "sub" (VStr sub) m && claim_is "iss" (VStr (spec_iss c)) m &&
+    (in whole seconds: between floor(ttl) and ceil(ttl) seconds after iat), jti a fresh id *)
+Definition claims_sys (c : config) (q : req) (m : cmap) : bool :=
+  claim_is "sub" (VStr (q_sub q)) m && claim_is "iss" (VStr (spec_iss c)) m &&
   match claim_int "iat" m, claim_int "nbf" m, claim_int "exp" m with
   | Some iat, Some nbf, Some exp =>
       Z.eqb iat nbf && (spec_ttl c / 1000000000 <=? exp - iat)%Z
       && (exp - iat <=? (spec_ttl c + 999999999) / 1000000000)%Z
   | _, _, _ => false
   end &&
-  match mget "jti" m with Some (VJti _) => true | _ => false end &&
+  match mget "jti" m with Some (VJti _) => true | _ => false end.
+
+(** what a template member stands for in a request *)
+Definition spec_value (q : req) (v : cval) : cval :=
+  match v with VSubj => VStr (q_sub q) | VOut => VStr (q_out q) | VAttr => VStr (q_attr q) | _ => v end.
+
+(** custom claims: exactly under the non-reserved names of the template, with the
+    values the template gives them for this request *)
+Definition claims_custom (c : config) (q : req) (m : cmap) : bool :=
   forallb (fun kv => str_in (fst kv) reserved ||
                      match tmpl_get (fst kv) (tmpl_of c) with
-                     | Some v => cval_eqb (snd kv) (match v with VSubj => VStr sub | _ => v end)
+                     | Some v => cval_eqb (snd kv) (spec_value q v)
                      | None => false
                      end) m &&
   forallb (fun kv => str_in (fst kv) reserved || some (mget (fst kv) m)) (tmpl_of c).
+
+Definition claims_ok (c : config) (q : req) (m : cmap) : bool := claims_sys c q m && claims_custom c q m.
 
 (** issued at [now]: iat = nbf = now, exp = now + ttl (as Unix seconds) *)
 Definition times_exact (c : config) (now : Z) (m : cmap) : bool :=
   claim_is "iat" (VInt (now / 1000000000)) m && claim_is "nbf" (VInt (now / 1000000000)) m &&
   claim_is "exp" (VInt ((now + spec_ttl c) / 1000000000)) m.
 
-(** header and signature: names the active key's id and algorithm, typ JWT, signed
-    with the active private key, and verifies against the published set *)
+(** header and signature: names the active key's id and algorithm and is signed with the
+    active private key *)
 Definition header_ok (a : raw_entry) (t : token) : bool :=
   String.eqb (t_kid t) (kid_of a) &&
   match spec_alg (r_key a) with Some alg => String.eqb (t_alg t) alg | None => false end &&
-  String.eqb (t_typ t) "JWT" && keymat_eqb (t_key t) (Priv (r_key a)).
+  keymat_eqb (t_key t) (Priv (r_key a)).
 
 Definition jti_of (t : token) : option cval := mget "jti" (t_claims t).
 
@@ -144,7 +153,7 @@ Definition cmap_eqb (a b : cmap) : bool :=
 
 Definition token_eqb (a b : token) : bool :=
   String.eqb (t_alg a) (t_alg b) && String.eqb (t_kid a) (t_kid b) && String.eqb (t_typ a) (t_typ b)
-  && keymat_eqb (t_key a) (t_key b) && cmap_eqb (t_claims a) (t_claims b).
+  && keymat_eqb (t_key a) (t_key b) && cmap_eqb (t_claims a) (t_claims b) && String.eqb (t_hdr a) (t_hdr b).
 
 (** a rule-level variant of a catalogue finalizer: what the rule gives overlays the
     catalogue configuration, member by member; only ttl (> 1s) and claims can be given *)
@@ -153,48 +162,124 @@ Definition overlay {A} (own proto : option A) : option A := match own with Some 
 Definition spec_variant (c : config) (o : override) : option config :=
   if o_unknown o || match o_ttl o with Some t => negb (1000000000 <? t)%Z | None => false end then None
   else Some {| c_keyid := c_keyid c; c_name := c_name c; c_ttl := overlay (o_ttl o) (c_ttl c);
-               c_claims := overlay (o_claims o) (c_claims c); c_cache := c_cache c;
+               c_claims := overlay (o_claims o) (c_claims c); c_cache := c_cache c; c_twin := c_twin c;
                c_before := c_before c; c_after := c_after c |}.
 
-Definition spec_target (c : config) (ov : option override) : option config :=
-  match ov with None => Some c | Some o => spec_variant c o end.
+(** the finalizer a rule step runs: the catalogue one or its twin (same configuration,
+    other signer name), possibly overlaid by the rule *)
+Definition spec_target (c : config) (twin : bool) (ov : option override) : option config :=
+  match (if twin then match c_twin c with
+                      | Some n => Some {| c_keyid := c_keyid c; c_name := n; c_ttl := c_ttl c; c_claims := c_claims c;
+                                          c_cache := c_cache c; c_twin := c_twin c;
+                                          c_before := c_before c; c_after := c_after c |}
+                      | None => None end
+         else Some c) with
+  | Some b => match ov with None => Some b | Some o => spec_variant b o end
+  | None => None
+  end.
 
 (** may tokens be reused from the cache at all *)
 Definition reuse_allowed (c : config) : bool := c_cache c && (5 * 1000000000 <? spec_ttl c)%Z.
 
-(** one token handed out for subject [sub] at [now] while (a, rs) is the current store;
-    [seen] = tokens handed out earlier in the run *)
-Definition token_ok (c : config) (cur : raw_entry * list raw_entry) (seen : list token)
-           (sub : string) (now : Z) (t : token) (verified : bool) : bool :=
+(** tokens handed out so far, with the (cache clock) time of their issue *)
+Definition seen_t := list (token * Z).
+Definition known (t : token) (seen : seen_t) : bool := existsb (fun e => same_jti t (fst e)) seen.
+Definition note (t : token) (clock : Z) (seen : seen_t) : seen_t :=
+  if known t seen then seen else (t, clock) :: seen.
+
+(** WHAT THE PROPERTY STATEMENT FIXES about one token handed out for request [q] at [now]
+    while (a, rs) = [cur] is the current store: it verifies against the published set
+    ([verified]: go-jose against the served body; [verifies]: the signing key's public half
+    is published under the token's key id), names the active key's id and algorithm and is
+    signed by it, carries the system claims; a token seen before must be one handed out
+    before and still within its ttl; a new one carries the issue time *)
+Definition token_prop (c : config) (cur : raw_entry * list raw_entry) (seen : seen_t) (clock : Z)
+           (q : req) (now : Z) (t : token) (verified : bool) : bool :=
   verified && verifies t (spec_published (c_before c) (c_after c) (snd cur)) && header_ok (fst cur) t
-  && claims_ok c sub (t_claims t) &&
-  (if existsb (same_jti t) seen
-   then reuse_allowed c && existsb (token_eqb t) seen      (* a reused token is one handed out before *)
+  && claims_sys c q (t_claims t) &&
+  (if known t seen
+   then existsb (fun e => token_eqb t (fst e) && (clock - snd e <? spec_ttl c)%Z) seen
    else times_exact c now (t_claims t)).
 
+(** the full specification of the finalizer adds what its documentation says beyond the
+    property: typ JWT, custom claims, reuse only with a cache and a ttl above 5 s *)
+Definition token_ok (c : config) (cur : raw_entry * list raw_entry) (seen : seen_t) (clock : Z)
+           (q : req) (now : Z) (t : token) (verified : bool) : bool :=
+  token_prop c cur seen clock q now t verified && String.eqb (t_typ t) "JWT" && String.eqb (t_hdr t) ""
+  && claims_custom c q (t_claims t) && (if known t seen then reuse_allowed c else true).
+
+(** the JWKS answer — property: no private material, and every key of the current store
+    (and of the other holders) is there under its key id *)
+Definition jwks_prop (c : config) (cur : raw_entry * list raw_entry) (ks : list jwk) : bool :=
+  forallb (fun j => negb (is_private (j_key j))) ks &&
+  forallb (fun e => existsb (fun j => String.eqb (j_kid j) (j_kid e) && keymat_eqb (j_key j) (j_key e)) ks)
+          (spec_published (c_before c) (c_after c) (snd cur)).
+
+(** full: exactly the public JWKs (kid, alg, use, certificates) in registration / file order *)
 Definition jwks_ok (c : config) (cur : raw_entry * list raw_entry) (ks : list jwk) : bool :=
   list_eqb jwk_eqb ks (spec_published (c_before c) (c_after c) (snd cur))
   && forallb (fun j => negb (is_private (j_key j))) ks.
 
-(** the whole run, observation by observation; the current store changes only when a
-    reload presents an acceptable file *)
-Fixpoint obs_ok (c : config) (cur : raw_entry * list raw_entry) (seen : list token)
+(** the current store after the files [fs] were presented one after the other *)
+Definition spec_reloads (cfg_kid : string) (cur : raw_entry * list raw_entry) (fs : list pem_file) :=
+  fold_left (fun cur f => match spec_accept cfg_kid f with Some c' => c' | None => cur end) fs cur.
+
+(** a token of an Execute during which reloads landed must be right for the store at its
+    beginning or for the store at its end (against whose key set [verified] was observed) *)
+Definition exec_judged (P : raw_entry * list raw_entry -> bool -> bool)
+           (cur cur' : raw_entry * list raw_entry) (mids : list pem_file) (verified : bool) : bool :=
+  if is_nil mids then P cur verified else P cur true || P cur' verified.
+
+(** the whole run, observation by observation, against the FULL specification; the
+    current store changes only when a reload presents an acceptable file *)
+Fixpoint obs_ok (c : config) (cur : raw_entry * list raw_entry) (seen : seen_t) (clock : Z)
          (ops : list op) (obs : list oobs) : bool :=
   match ops, obs with
   | [], [] => true
-  | OExec ov sub now :: ops', x :: obs' =>
-      match spec_target c ov, x with
-      | Some ce, XToken t v => token_ok ce cur seen sub now t v && obs_ok c cur (t :: seen) ops' obs'
-      | None, XErr => obs_ok c cur seen ops' obs'       (* an invalid override yields no finalizer *)
+  | OExec twin ov q now mids :: ops', x :: obs' =>
+      match spec_target c twin ov, x with
+      | Some ce, XToken t v =>
+          let cur' := spec_reloads (c_keyid c) cur mids in
+          exec_judged (fun k b => token_ok ce k seen clock q now t b) cur cur' mids v
+          && obs_ok c cur' (note t clock seen) clock ops' obs'
+      | None, XErr => obs_ok c cur seen clock ops' obs'     (* an invalid override yields no finalizer *)
       | _, _ => false
       end
   | OReload f :: ops', x :: obs' =>
       match spec_accept (c_keyid c) f, x with
-      | Some cur', XDone => obs_ok c cur' seen ops' obs'
-      | None, (XErr | XPanic) => obs_ok c cur seen ops' obs'
+      | Some cur', XDone => obs_ok c cur' seen clock ops' obs'
+      | None, (XErr | XPanic) => obs_ok c cur seen clock ops' obs'
       | _, _ => false
       end
-  | OJwks :: ops', XJwks ks :: obs' => jwks_ok c cur ks && obs_ok c cur seen ops' obs'
+  | OJwks :: ops', XJwks ks :: obs' => jwks_ok c cur ks && obs_ok c cur seen clock ops' obs'
+  | OWait d :: ops', XDone :: obs' => obs_ok c cur seen (clock + d) ops' obs'
+  | _, _ => false
+  end.
+
+(** the same against what the PROPERTY STATEMENT fixes.  Which files and overrides are
+    accepted is not the property's business: where the observation disagrees with the
+    specification about that, the rest of the run is not judged. *)
+Fixpoint obs_prop (c : config) (cur : raw_entry * list raw_entry) (seen : seen_t) (clock : Z)
+         (ops : list op) (obs : list oobs) : bool :=
+  match ops, obs with
+  | [], _ => true
+  | OExec twin ov q now mids :: ops', x :: obs' =>
+      match spec_target c twin ov, x with
+      | Some ce, XToken t v =>
+          let cur' := spec_reloads (c_keyid c) cur mids in
+          exec_judged (fun k b => token_prop ce k seen clock q now t b) cur cur' mids v
+          && obs_prop c cur' (note t clock seen) clock ops' obs'
+      | None, XErr => obs_prop c cur seen clock ops' obs'
+      | _, _ => true
+      end
+  | OReload f :: ops', x :: obs' =>
+      match spec_accept (c_keyid c) f, x with
+      | Some cur', XDone => obs_prop c cur' seen clock ops' obs'
+      | None, (XErr | XPanic) => obs_prop c cur seen clock ops' obs'
+      | _, _ => true
+      end
+  | OJwks :: ops', XJwks ks :: obs' => jwks_prop c cur ks && obs_prop c cur seen clock ops' obs'
+  | OWait d :: ops', XDone :: obs' => obs_prop c cur seen (clock + d) ops' obs'
   | _, _ => false
   end.
 
@@ -205,12 +290,18 @@ Definition ttl_valid (c : config) : bool :=
     then every observation of the run is as above *)
 Definition run_ok (c : config) (f : pem_file) (ops : list op) (created : res unit) (obs : list oobs) : bool :=
   match (if ttl_valid c then spec_accept (c_keyid c) f else None), created with
-  | Some cur, Ok _ => obs_ok c cur [] ops obs
+  | Some cur, Ok _ => obs_ok c cur [] 0 ops obs
   | None, (Err | Panic) => is_nil obs
   | _, _ => false
   end.
 
-(* ------------------------------------------------------------------ finding C16-F1 *)
+Definition run_prop (c : config) (f : pem_file) (ops : list op) (created : res unit) (obs : list oobs) : bool :=
+  match (if ttl_valid c then spec_accept (c_keyid c) f else None), created with
+  | Some cur, Ok _ => obs_prop c cur [] 0 ops obs
+  | _, _ => true
+  end.
+
+(* ------------------------------------------------------------------ findings C16-F1, C16-F2 (both repaired) *)
 
 (** files of a run that are accepted, in order *)
 Fixpoint accepted_of (cfg_kid : string) (fs : list pem_file) : list raw_entry :=
@@ -223,7 +314,7 @@ Fixpoint accepted_of (cfg_kid : string) (fs : list pem_file) : list raw_entry :=
   end.
 
 Definition files_of (ops : list op) : list pem_file :=
-  flat_map (fun o => match o with OReload f => [f] | _ => [] end) ops.
+  flat_map (fun o => match o with OReload f => [f] | OExec _ _ _ _ mids => mids | _ => [] end) ops.
 
 (** two active entries that a cached token cannot tell apart (same key id, same
     algorithm) although their keys differ *)
@@ -237,3 +328,12 @@ Definition guard_F1 (c : config) (f : pem_file) (ops : list op) : bool :=
   c_cache c &&
   let acts := accepted_of (c_keyid c) (f :: files_of ops) in
   existsb (fun a => existsb (clash a) acts) acts.
+
+(** C16-F2: a token cache is in use and an acceptable key store is loaded between the
+    cache lookup and the signing of some Execute *)
+Definition guard_F2 (c : config) (ops : list op) : bool :=
+  c_cache c &&
+  existsb (fun o => match o with
+                    | OExec _ _ _ _ mids => negb (is_nil (accepted_of (c_keyid c) mids))
+                    | _ => false
+                    end) ops.
